@@ -30,7 +30,7 @@ FIELDS = {
     "C07": {"result", "users", "mem", "apps"},
     "C08": {"result", "apps", "trks"},
     "C09": {"result", "users", "mem"},
-    "C11": {"result", "rpc", "users", "apps", "trks", "mem"},
+    "C11": {"result", "rpc", "users", "apps", "trks", "mem", "locks"},
 }
 
 
@@ -66,6 +66,7 @@ def run_harness(ctx, cases, tier, profile="mixed", tag="q"):
                 w.write(f.read())
             os.remove(o)
     rc, out, dt = vlib.sh([vlib.DRIVER, allf], timeout=3000)
+    open(allf + ".out", "w").write(out)
     summ = vlib.parse_summary(out).get("TW")
     fails = [l for l in out.splitlines() if l.startswith("FAIL")]
     if rc != 0 or summ is None:
@@ -134,6 +135,9 @@ def check(ctx, pid, targets, mon_codes, known_codes=None, allow_axioms=(), extra
             cov["op_histogram"] = summ.get("ops", "")
             cov["reply_histogram"] = summ.get("results", "")
             cov["monitor_failures_all_properties"] = summ.get("mon", "")
+            m = re.search(r"^LOCKEDGES (.*)$", open(allf + ".out").read(), re.M) if os.path.exists(allf + ".out") else None
+            if m:
+                cov["lock_order_pairs_observed"] = m.group(1)
             if not cov["samples"]:
                 with open(allf) as f:
                     for _ in range(2):
